@@ -20,7 +20,12 @@ def parseReport (j : Json) : Except String Report := do
     | .arr #[p, d] => do return ((← pathFromJson? p), (← parseDeps d))
     | _ => throw "bad step entry"
   let dels ← (← getArr' j "deletions").toList.mapM pathFromJson?
-  return { procs := procs, steps := steps, deletions := dels }
+  let pf ← match j.getObjVal? "procFlow" with
+    | .ok (.arr xs) => xs.toList.mapM fun x => match x with
+      | .arr #[p, .arr ds] => do return ((← pathFromJson? p), (← ds.toList.mapM pathFromJson?))
+      | _ => throw "bad procFlow entry"
+    | _ => pure []
+  return { procs := procs, steps := steps, deletions := dels, procFlow := pf }
 
 def snap (e : Engine) : Json :=
   Json.mkObj [("procPaths", pathsJ e.procPaths), ("stepPaths", pathsJ e.stepPaths),
